@@ -277,14 +277,29 @@ def run_history(stack, tests, with_run_ops):
                 top.startTest(tb)
                 top.addSuccess(tb)
                 top.stopTest(tb)
+                top.time(ts(50))
+                tc = make_test("placeholder", 102)
+                top.startTest(tc)
+                top.addSuccess(tc)
+                top.stopTest(tc)
+                top.stopTestRun()
+                # a fourth run, whose first supplied time happens to equal the last one of the third
+                top.startTestRun()
+                top.time(ts(50))
+                td = make_test("placeholder", 103)
+                top.startTest(td)
+                top.addSuccess(td)
+                top.stopTest(td)
                 top.stopTestRun()
             except Exception as e:
                 problems.append(("call-raised", "third run: %s: %s" % (type(e).__name__, str(e)[:120])))
                 return problems
             after = datetime.datetime.now(utc)
-            ca, cb = sink.calls[-2], sink.calls[-1]
+            ca, cb, cc, cd = sink.calls[-4:]
             if (ca["start_time"], ca["stop_time"]) != (ts(50), ts(50)) or not (before <= cb["start_time"] <= cb["stop_time"] <= after):
                 problems.append(("tbtr-times", "third run, time(t) then time(None): callback times %r..%r and %r..%r" % (ca["start_time"], ca["stop_time"], cb["start_time"], cb["stop_time"])))
+            if (cc["start_time"], cc["stop_time"], cd["start_time"], cd["stop_time"]) != (ts(50),) * 4:
+                problems.append(("tbtr-times", "time(t) again at the end of the third run and at the start of the fourth: callback times %r..%r and %r..%r, expected %r throughout" % (cc["start_time"], cc["stop_time"], cd["start_time"], cd["stop_time"], ts(50))))
     return problems
 
 
